@@ -37,9 +37,20 @@ def unesc(s):
     return _UNESC.sub(lambda m: chr(int(m.group(1), 16)), s)
 
 
+# stand-ins for integers too long for CPython to convert to a decimal string (cases stay printable and JSON-serialisable; the
+# implementation is handed the real integer, the model a value whose str() is what the implementation now reports)
+HUGE = {'<int 10**5000>': 10 ** 5000, '<int -10**4400>': -(10 ** 4400)}
+
+
+def real_value(v):
+    return HUGE[v] if isinstance(v, str) and v in HUGE else v
+
+
 def pyval(v):
     if v is None:
         return 'N'
+    if isinstance(v, str) and v in HUGE:
+        return 'F00integer out of range'
     if v is True:
         return 'B1'
     if v is False:
@@ -298,7 +309,7 @@ class Impl:
                 raise Abort(msg.text)
         # only the options that are given are passed (the defaults of RenderOptions and of render() are part of the code
         # under test); a call with none at all alternates between render(src) and render(src, RenderOptions())
-        kw = {k: v for k, v in (('safeMode', safeMode), ('htmlReplacement', htmlReplacement), ('reset', reset), ('callback', cb))
+        kw = {k: real_value(v) for k, v in (('safeMode', safeMode), ('htmlReplacement', htmlReplacement), ('reset', reset), ('callback', cb))
               if v is not None}
         self._calls = getattr(self, '_calls', 0) + 1
         try:
